@@ -1182,12 +1182,16 @@ class KafkaClient(object):
             ep = self._endpoint_factory(self.reactor, host, port)
             try:
                 protocol = yield ep.connect(_bootstrapFactory)
+            except t_CancelledError:
+                raise  # our caller gave up: do not go on to the next host
             except Exception as e:
                 log.debug("%s: bootstrap connect to %s:%s -> %s", self, host, port, e)
                 continue
 
             try:
                 response = yield protocol.request(request).addTimeout(self.timeout, self.reactor)
+            except t_CancelledError:
+                raise
             except Exception:
                 log.debug(
                     "%s: bootstrap %s to %s:%s failed",
